@@ -4,8 +4,8 @@ from clang's AST of include/nfl/core.hpp by tools/gen_smp_ast.py (Generated/SmpA
 Proofs/SmpAstEq.lean.  Each theorem is about the value the GENERATED function returns: the final flat array `d` (`_data[cm*degree+i]` =
 `d.getD (cm*n+i) 0`), the unread tape and the list of request sizes it recorded — for every non-empty tape, every initial `_data`, every
 content of the uninitialised local buffers.  (On an empty tape the generated functions return `err tapeEnd`: `*_ast_tapeEnd`.)
-Not here: set(hwt_dist) and set(It,It,bool) are translated (Generated/SmpAst.lean) but their whole-function equalities are not proved
-(see the comment at the end of this file); set(gaussian) is not translated as a whole.
+set(hwt_dist) and set(It,It,bool): whole-function equalities in Proofs/SmpAstEq2.lean, statements and transported properties in
+Properties/C12Ast2.lean (see the comment at the end of this file); set(gaussian) is not translated as a whole.
 -/
 import NflVerif.Proofs.SmpAstEq
 import NflVerif.Properties.C12
@@ -304,20 +304,22 @@ example : (view 2 2 (Gen.set_zo_u16 2 2 (fun cm => [13, 17].getD cm 0) [0, 0] 12
     .ok ([[1, 0], [1, 0]], 4, [], [2]) := by decide +kernel
 
 /-
-PROVED for set(hwt_dist) so far (Proofs/SmpAstEq.lean): set_hwt_uW_split (the generated term IS assert; iota; reservoir loop from k = hwt
-with refills of 8·|rnd| bytes; sort; memset; sign request; writes — by rfl against a structured copy, so any change of a bound / request size /
-library call breaks it), hwt_assert_partial (the assert is the model's guard), hwt_sign_request_partial (exactly one sign request of 8·h bytes).
-NOT PROVED (kept as the full statements; the definitions are generated and re-checked to elaborate on every run):
+set(hwt_dist) and set(It,It,bool) — CLOSED in Proofs/SmpAstEq2.lean / Properties/C12Ast2.lean (namespace Nfl.C12Ast), three limb widths, nothing partial:
   set_hwt_uW_eq : view n ps.length (Gen.set_hwt_uW n ps.length P h data ⟨tape, reqs⟩) =
       if h = 0 ∨ n < h then .err .assertion else
       match hwtPositions h n tape with
       | none => .err .tapeEnd
       | some (sorted, []) => .err .tapeEnd
-      | some (sorted, sreq :: rest) => .ok (ps.map (hwtWrite W n · sorted sreq), data.length, rest, reqs ++ (one `8*h` per consumed buffer))
-    missing: the refinement between the k-loop / `for(;;)` of the generated function (Smp.forFromM over Smp.loopM, budget Smp.loopFuel) and
-    `runTape` / `runBuf` (induction on the measure |buffer| + (h+1)·|tape|, which also shows that the budget is never exhausted), and
-    `StdSem.sortAll = isort`, `StdSem.memset 0 = zeros`, positions < n for the flat write.
-  set_range_uW_eq : Gen.set_range_uW … vals first last reduce data = (setValues n ps (vals[first..last)) reduce) read through `rows`
-    missing: the two whileFuel loops as prefixes of the row (copy then pad) and the walk of `iter` / `viter`.
+      | some (sorted, sreq :: rest) => .ok (ps.map (hwtWrite W n · sorted sreq), data.length, rest,
+                                             reqs ++ List.replicate (tape.length - rest.length) (8 * h))
+    hypotheses: moduli are limb values, h < 2^32 (uint32_t), n < 2^64, nmoduli < 2^64, n·nmoduli·sizeof(T) < 2^64, |_data| = n·nmoduli.
+    proof: SmpAstEq2.loop_refine (Smp.forFromM over Smp.loopM refines runTape / runBuf; induction on (unread words) + (h+1)·(unread buffers); the
+    budget Smp.loopFuel is never exhausted), sortAll_eq_isort, memset_zero, tail_ok / rows_write (flat ±1 writes = hwtWrite per modulus).
+  set_range_uW_eq : viewR n ps.length (Gen.set_range_uW n ps.length P vals first last reduce data) =
+      match setValues n ps ((vals.take last).drop first) reduce with | none => .err .thrown | some poly => .ok (poly, data.length)
+    hypotheses: first ≤ last ≤ |vals|, elements and moduli are limb values, n < 2^64, nmoduli < 2^64, n·nmoduli < 2^64, |_data| = n·nmoduli.
+    proof: SmpAstEq2.copy_loop / pad_loop (the two whileFuel loops; the fuel `degree` suffices), row_eq, range_outer (walk / rewind of viter).
+  transported: hwt_uW_ast, hwt_uW_ast_stops (never `fuel`), range_uW_ast, range_u16_ast_short / _full.
+The earlier partial lemmas of Proofs/SmpAstEq.lean (set_hwt_uW_split, hwt_assert_partial, hwt_sign_request_partial) are kept; they are used by the proof.
 -/
 end Nfl.C12Ast
